@@ -41,7 +41,9 @@ def add_incompatibility_constraint(graph: nx.MultiDiGraph, nodes: List[DSGNode],
 
 def _get_canonical_edge(edge: EdgeTuple) -> EdgeTuple:
     source_node, target_node = sorted(edge[:2], key=lambda n: getattr(n, 'name', str(hash(n))))
-    return source_node, target_node, 0, edge[-1]
+    # Keep the edge key: the key-0 edge between these nodes might be of another type (e.g. a derivation edge), which
+    # would be overwritten when the canonical edge is added back to a graph
+    return source_node, target_node, (edge[2] if len(edge) == 4 else 0), edge[-1]
 
 
 def get_confirmed_incompatibility_edges(graph: nx.MultiDiGraph, start_nodes: Set[DSGNode]) -> Set[EdgeTuple]:
